@@ -564,8 +564,6 @@ def _stale_events(tid0):
     ev = []
     tid = tid0
     for name, f, args in tab:
-        if name.startswith(("RSP", "Hybrid", "rand_qsvd", "pass_eff", "power_iteration")):
-            continue                                     # randomized: compared under seeds elsewhere
         tid += 1
         qa = [q_from_float(a) if a.ndim == 3 else quaternion.as_quat_array(a.copy()) for a in args]
         def update(x):                                   # the in-place update applied to the caller's array
@@ -574,12 +572,16 @@ def _stale_events(tid0):
                 x[0, 0] = x[0, 0] + quaternion.quaternion(1.0, 0, 0, 0)
         try:
             with contextlib.redirect_stdout(io.StringIO()):
-                # expected answer FIRST, on an array object the function will never see again
+                # expected answer FIRST, on an array object the function will never see again (randomized routines: the
+                # global generator is reseeded identically before every call)
                 want = [x.copy() for x in qa]
                 update(want[0])
+                np.random.seed(5)
                 fresh = f(*want)
+                np.random.seed(5)
                 f(*qa)
                 update(qa[0])                            # same object, new contents
+                np.random.seed(5)
                 second = f(*qa)
             same = _numeric_close(second, fresh)
         except Exception:
